@@ -259,3 +259,6 @@ func (r *R) Exec(ctx sdk.Context, line string) (sdk.Context, string) {
 	out := r.env.Deliver(ctx, msg)
 	return ctx, out.Class + " " + r.state(ctx)
 }
+
+// State renders the canonical module state (hx.Stater).
+func (r *R) State(ctx sdk.Context) string { return r.state(ctx) }
